@@ -188,6 +188,32 @@ def job_queue(res, n, it, L, model='sin'):
                 prove(res, 'the step after a flush records only its own entry (none lost, none duplicated across the flush)', s3.pc, z3.Or(z3.BoolVal(npast != 1), rec[0] != ent[L][0], rec[1] != ent[L][1]), key='flush-discipline')
     account(res, ex, mod, states)
 
+def job_flush_history(res, n, it, model='sin'):
+    """three steps, the record fetched after each one (an output block per step): every fetch returns exactly the one entry consumed since the previous fetch - nothing handed out earlier comes back"""
+    bld = maps_build(); mod = load_module(bld, MAPS_MODS)
+    snap, R, pre = maps_world(bld, n, 1, it)
+    ex = Exec(mod, snap, RealDom(), {UPDATE_SM: ext_noop, KICK_APPLY: ext_noop})
+    st = State(); drf = R['drfsin' if model == 'sin' else 'drflin']
+    front = ex.run1(State(), 'e_drf_front', [drf]).retval
+    ent = []
+    for i in range(3):
+        p = z3.Real('phase%d' % i); a = z3.Real('ampl%d' % i); ent.append((p, a))
+        st.sym[front + 8 * i] = (4, 'f', p); st.sym[front + 8 * i + 4] = (4, 'f', a)
+    states = [st]
+    for k in range(3):
+        nxt = []
+        for s0 in states:
+            for s1 in run_paths(ex, s0, 'e_apply', [drf]):
+                s2 = ex.run1(s1, 'e_drf_past', [drf]); vec = s2.retval
+                vs = ex.run1(s2, 'e_vecsize', [vec]).retval; vd = ex.run1(s2, 'e_vecdata', [vec]).retval if vs else 0
+                got = get_reals(ex, s2, vd, 2 * vs) if vs else []
+                prove(res, 'fetch #%d (%s RF, one step since the previous fetch) returns exactly the entry that step consumed (returned %s records)' % (k + 1, model, vs), s2.pc,
+                      z3.Or(z3.BoolVal(vs != 1), *[x != y for x, y in zip(got, ent[k])]), key='flush-discipline', cex_fn=lambda m, k=k, vs=vs: {'replay': 'structural', 'fetch': k + 1, 'records': vs})
+                nxt.append(s2)
+        states = nxt
+    account(res, ex, mod, states)
+    witness(res, 'three fetches were explored (%s)' % model, [], z3.BoolVal(len(states) >= 1))
+
 def job_calcmod(res, n, it):
     """B2: __calcModulation: entry i == (syncphase + xi_i*sigma_phase + A*sin(delta*i), 1 + eta_i*sigma_ampl) with symbolic members and draws"""
     bld = maps_build(); mod = load_module(bld, MAPS_MODS)
@@ -243,7 +269,7 @@ def main(tier):
     bld = maps_build()
     PS = [(0.1, 1e-3, 1.4e6, 4.99e8, 4.5e4), (0.02, 3e-4, 2.0e5, 5.0e8, 0.0)]
     jobs = [(job_ctor_equiv, (m, 8, nb, 4)) for m in ('lin', 'sin') for nb in (1, 2)]
-    jobs += [(job_zero_amplitude_queue, (m, 8, 4)) for m in ('lin', 'sin')]
+    jobs += [(job_zero_amplitude_queue, (m, 8, 4)) for m in ('lin', 'sin')] + [(job_flush_history, (8, 4, m)) for m in ('lin', 'sin')]
     jobs += [(job_end_to_end, (m, 8, nb, it, p)) for m in ('lin', 'sin') for nb, it in ((1, 4), (2, 3)) for p in PS]
     jobs += [(job_queue, (8, 4, L)) for L in (1, 2, 3)] + [(job_queue, (8, 4, 2, 'lin')), (job_queue, (9, 2, 1, 'lin'))] + [(job_calcmod, (8, 4))]
     jobs += [(job_queue_whole_run, (m, 8, 4, S)) for m in ('lin', 'sin') for S in (700, 40000) if tier != 'quick' or S == 700 or m == 'sin']      # longer than the container's node size; thorough: longer than any plausible block size (2^15)
